@@ -428,6 +428,25 @@ func extEffect(name string) (read, write bool) {
 	return false, false
 }
 
+// extWritesArg: external functions that fill the slice passed as argument i
+// (receiver counted as argument 0 for static method calls).
+func extWritesArg(name string, i int) bool {
+	switch name {
+	case "(*os.File).ReadAt", "(*os.File).Read", "(*bufio.Reader).Read", "(io.Reader).Read", "(io.ReaderAt).ReadAt":
+		return i == 1 || (i == 0 && strings.HasPrefix(name, "(io."))
+	case "io.ReadFull", "io.ReadAtLeast":
+		return i == 1
+	case "(encoding/binary.littleEndian).PutUint16", "(encoding/binary.littleEndian).PutUint32", "(encoding/binary.littleEndian).PutUint64",
+		"(encoding/binary.bigEndian).PutUint16", "(encoding/binary.bigEndian).PutUint32", "(encoding/binary.bigEndian).PutUint64":
+		return i == 1
+	case "encoding/binary.PutUvarint", "encoding/binary.PutVarint":
+		return i == 0
+	case "crypto/rand.Read", "math/rand.Read":
+		return i == 0
+	}
+	return false
+}
+
 // locOfAddr maps an address expression to an abstract shared location.
 // content reports that the address denotes an element of the field's
 // slice/map contents rather than the field itself.
@@ -454,6 +473,12 @@ func (la *LockAnalysis) locOfAddr(addr ssa.Value) (loc string, content bool, ok 
 			return "", false, false
 		}
 		return qualifiedField(base.Type(), root.Field), false, true
+	case *ssa.Global:
+		// a package-level variable of the module is shared by every thread
+		if a.Pkg != nil && la.e.InModulePkg(a.Pkg.Pkg) {
+			return a.Pkg.Pkg.Name() + "." + a.Name(), false, true
+		}
+		return "", false, false
 	case *ssa.IndexAddr:
 		// element of a slice value, or of an array reached by pointer
 		if _, isPtr := a.X.Type().Underlying().(*types.Pointer); isPtr {
@@ -857,6 +882,17 @@ func (la *LockAnalysis) walkCall(root string, fn *ssa.Function, fi *funcLockInfo
 		la.Walk(root, callee, callHeld)
 	}
 	if external || len(callees) == 0 {
+		// slices handed to code outside the module: the callee reads their
+		// contents, and the known fillers (ReadAt, Read, io.ReadFull,
+		// binary.Put*) write them
+		for i, a := range c.Args {
+			if _, isSlice := a.Type().Underlying().(*types.Slice); !isSlice {
+				continue
+			}
+			if loc, ok := la.origin(a, 0); ok {
+				acc(ci, loc, extWritesArg(name, i), "content", callHeld)
+			}
+		}
 		// function values passed to code outside the module are assumed to
 		// be called synchronously with the current lockset
 		for _, a := range c.Args {
